@@ -1,4 +1,5 @@
 import sys
+# unmarshalList *[]T: reuses the destination's backing array when its capacity suffices (stale elements seen by element unmarshal)
 p=sys.argv[1]+'/marshal.go'; s=open(p).read()
 old="""			rv.Set(reflect.MakeSlice(t, n, n))"""
 assert old in s
